@@ -5,7 +5,7 @@ import re
 
 from .unit import REPO
 from .rs import Crate, AnchorLost
-from .weave import Fn, C, Loop, after, lit, weave_fn
+from .weave import Fn, C, Loop, Insert, after, before, lit, weave_fn
 from . import dialect
 
 SHIMS = os.path.join(os.path.dirname(os.path.dirname(os.path.abspath(__file__))), 'contracts', 'shims')
@@ -62,3 +62,59 @@ def rand_core_impls_text(unit):
     return '\n'.join(out)
 
 
+
+
+def rand_core_impls_rel_text(unit):
+    """rand_core's real fill_bytes_via_next woven with the relational contract (generators with external readings)."""
+    lock = open(os.path.join(REPO, 'Cargo.lock')).read()
+    m = re.search(r'name = "rand_core"\nversion = "([^"]+)"', lock)
+    if not m:
+        raise AnchorLost('rand_core not in Cargo.lock')
+    ver = m.group(1)
+    cands = glob.glob(os.path.expanduser('~/.cargo/registry/src/*/rand_core-%s/src/impls.rs' % ver))
+    if not cands:
+        raise AnchorLost('rand_core %s sources not found in the local registry' % ver)
+    cr = Crate(open(cands[0]).read())
+    unit.sources['rand_core-' + ver] = cands[0]
+    inv = [
+        C('rcrel.fill_bytes_via_next.inv.split', 'C05 C14 C16', 'final(dest)@ == pre + final(left)@'),
+        C('rcrel.fill_bytes_via_next.inv.len', 'C05 C14 C16', 'pre.len() + left@.len() == n0 && pre.len() == 8 * ws.len()'),
+        C('rcrel.fill_bytes_via_next.inv.chain', 'C05 C16', 'chain::<R>(ws, vs) && vs[0] == v0 && vs.last() == rng.v() && rng.wf()'),
+        C('rcrel.fill_bytes_via_next.inv.words', 'C05 C16', 'forall |i: int| 0 <= i < ws.len() ==> pre.subrange(8 * i, 8 * i + 8) == le64(#[trigger] ws[i])'),
+    ]
+    f2 = Fn('rand_core::impls::fill_bytes_via_next',
+            sig_rewrites=[(r'<R: RngCore \+ \?Sized>', '<R: Next32 + Next64>')],
+            requires=[C('rcrel.fill_bytes_via_next.wf', '', 'old(rng).wf()')],
+            ensures=[C('rcrel.fill_bytes_via_next.rel', 'C05 C16', 'fill_rel::<R>(old(rng).v(), final(dest)@, final(rng).v())'),
+                     C('rcrel.fill_bytes_via_next.wf_kept', 'C05 C14', 'final(rng).wf() && final(dest)@.len() == old(dest)@.len()')],
+            loops={0: Loop(invariants=inv, decreases='left.len()')},
+            inserts=[after(lit('let mut left = dest;'),
+                           'let ghost v0 = rng.v(); let ghost n0 = old(dest)@.len(); let ghost mut pre: Seq<u8> = Seq::empty();\n'
+                           'let ghost mut ws: Seq<u64> = Seq::empty(); let ghost mut vs: Seq<R::V> = seq![rng.v()];'),
+                     before(lit('let (l, r) = { left }.split_at_mut(8);'), 'let ghost vb = rng.v();'),
+                     after(lit('l.copy_from_slice(&chunk);'),
+                           'proof {\n'
+                           '  let w = choose |w: u64| R::r64(vb, w, rng.v()) && chunk@ == le64(w);\n'
+                           '  let ws2 = ws.push(w); let vs2 = vs.push(rng.v()); let pre2 = pre + chunk@;\n'
+                           '  assert forall |i: int| 0 <= i < ws2.len() implies R::r64(vs2[i], #[trigger] ws2[i], vs2[i + 1]) by { if i < ws.len() { assert(ws2[i] == ws[i]); } }\n'
+                           '  assert forall |i: int| 0 <= i < ws2.len() implies pre2.subrange(8 * i, 8 * i + 8) == le64(#[trigger] ws2[i]) by {\n'
+                           '    if i < ws.len() { assert(pre2.subrange(8 * i, 8 * i + 8) =~= pre.subrange(8 * i, 8 * i + 8)); assert(ws2[i] == ws[i]); }\n'
+                           '    else { assert(pre2.subrange(8 * i, 8 * i + 8) =~= chunk@); } }\n'
+                           '  ws = ws2; vs = vs2; pre = pre2;\n'
+                           '}'),
+                     after(lit('let n = left.len();'), 'let ghost vt = rng.v(); let ghost tb0 = left@;'),
+                     Insert('end', None, 'proof {\n'
+                            '  assert(ws.len() == n0 / 8) by { assert(n0 == 8 * ws.len() + n && n < 8); }\n'
+                            '  assert(final(dest)@.subrange(8 * ws.len() as int, n0 as int) =~= final(left)@);\n'
+                            '  assert forall |i: int| 0 <= i < ws.len() implies final(dest)@.subrange(8 * i, 8 * i + 8) == le64(#[trigger] ws[i]) by {\n'
+                            '     assert(final(dest)@.subrange(8 * i, 8 * i + 8) =~= pre.subrange(8 * i, 8 * i + 8)); }\n'
+                            '  assert(tail_rel::<R>(vt, final(left)@, rng.v()));\n'
+                            '  assert(chain::<R>(ws, vs));\n'
+                            '}')],
+            builtin_props='C14')
+    it = cr.get('fill_bytes_via_next')
+    s = dialect.apply(cr.src(it, with_attrs=True), unit.log).strip()
+    f2.path = 'rand_core::impls::fill_bytes_via_next'
+    unit.extracted[f2.path] = s
+    unit.contracts[f2.path] = f2
+    return weave_fn(s, f2)
